@@ -180,7 +180,10 @@ def ioapispecs(draw, routes=ROUTES, ftypes=(1, 1, 2), max_vars=4, max_n=6,
     sdate = y * 1000 + j
     crossing = False
     if cross_share and nt >= 2 and draw(st.integers(1, cross_share)) == 1:
-        # midnight at the END of day (y, j) is reached after r steps
+        # midnight at the END of day (y, j) is reached after r steps; half
+        # of these series cross into a new year
+        if draw(st.booleans()):
+            j = 366 if is_leap(y) else 365
         r = draw(st.integers(1, nt - 1))
         mid = _dt.datetime(y, 1, 1, tzinfo=UTC) + _dt.timedelta(days=j)
         t0 = mid - r * tstep_timedelta(tstep)
